@@ -86,6 +86,7 @@ package fastaio
 //@   loop 1:
 //@     invariant len(sent(cErr)) == 0 && len(sent(cDone)) == 0
 //@     invariant hdrs >= 0 && first == (hdrs == 0) && counter == ite(hdrs == 0, 0, hdrs - 1) && len(sent(chnl)) == counter
+//@     invariant implies(hdrs == 0, gLen == 0)
 //@     invariant len(seqBuffer) == gLen && score == gScore && counting[136] == gA && counting[40] == gC && counting[72] == gG && counting[24] == gT
 //@     invariant implies(counter > 0, width == gWidth)
 //@     invariant forall(j, 0, len(seqBuffer), isCode(seqBuffer[j]))
@@ -114,7 +115,7 @@ package fastaio
 //@   loop 1:
 //@     invariant len(sent(cErr)) == 0 && len(sent(cDone)) == 0
 //@     invariant hdrs >= 0 && first == (hdrs == 0) && counter == ite(hdrs == 0, 0, hdrs - 1) && len(sent(chnl)) == counter
-//@     invariant len(seqBuffer) == gLen && implies(counter > 0, width == gWidth)
+//@     invariant len(seqBuffer) == gLen && implies(counter > 0, width == gWidth) && implies(hdrs == 0, gLen == 0)
 //@     invariant forall(j, 0, len(seqBuffer), isCode(seqBuffer[j]))
 //@     invariant forall(t, 0, counter, sent(chnl)[t].Idx == t && len(sent(chnl)[t].Seq) == gWidth)
 //@   loop 2:
@@ -125,7 +126,9 @@ package fastaio
 //@   after call:Bytes#1: do if len(line) > 0 && line[0] == '>' { hdrs++ }
 //@   before send#4: assert [record] fr.Idx == hdrs - 2 && len(fr.Seq) == gLen && forall(j, 0, len(fr.Seq), isCode(fr.Seq[j]))
 //@   after send#4: do if hdrs == 2 { gWidth = gLen }; gLen = 0
-//@   before send#8: assert [lastrecord] fr.Idx == hdrs - 1 && len(fr.Seq) == gLen && forall(j, 0, len(fr.Seq), isCode(fr.Seq[j]))
+//@   before send#8: assert [lastrecord.idx] fr.Idx == hdrs - 1
+//@   before send#8: assert [lastrecord.len] len(fr.Seq) == gLen
+//@   before send#8: assert [lastrecord.codes] forall(j, 0, len(fr.Seq), isCode(fr.Seq[j]))
 //@   ensures [c18.exclusive] len(sent(cErr)) + len(sent(cDone)) == 1
 //@   ensures [strict.count] implies(len(sent(cErr)) == 0, len(sent(chnl)) == hdrs && hdrs >= 1)
 //@   ensures [idx] forall(t, 0, len(sent(chnl)), sent(chnl)[t].Idx == t)
@@ -136,7 +139,7 @@ package fastaio
 //@   ghost gWidth int = 0
 //@   loop 1:
 //@     invariant hdrs >= 0 && first == (hdrs == 0) && counter == ite(hdrs == 0, 0, hdrs - 1) && len(records) == counter
-//@     invariant len(seqBuffer) == gLen && implies(counter > 0, width == gWidth)
+//@     invariant len(seqBuffer) == gLen && implies(counter > 0, width == gWidth) && implies(hdrs == 0, gLen == 0)
 //@     invariant forall(j, 0, len(seqBuffer), isCode(seqBuffer[j]))
 //@     invariant forall(t, 0, counter, records[t].Idx == t && len(records[t].Seq) == gWidth && records[t].Count_A == 0 && records[t].Count_C == 0 && records[t].Count_G == 0 && records[t].Count_T == 0)
 //@   loop 2:
